@@ -45,6 +45,6 @@ Proof. split; [lra|]. split; lra. Qed.
 Example ex_closest_Q : closest3 QOps (0, 0, 0)%Q 1%Q 1%Q 1%Q 3%Z 4%Z 5%Z ((5 # 2), (1 # 2), (7 # 2))%Q = (2, 0, 4, 44)%Z.
 Proof. reflexivity. Qed.
 
-Example ex_box_Q : shape_axis QOps [0; 10]%Q (1 # 4)%Q 5%Q = 80%Z /\
-                   Qeq (origin_axis QOps [1; 80]%Q [0; 10]%Q (1 # 4)%Q 5%Q) (-10 # 81)%Q.
+Example ex_box_Q : shape_axis QOps [8; 8]%Q [-1; 1]%Q (1 # 4)%Q 2%Q = 24%Z /\
+                   Qeq (origin_axis QOps [8; 8]%Q [-1; 1]%Q (1 # 4)%Q 2%Q) (-3)%Q.
 Proof. split; reflexivity. Qed.
